@@ -68,19 +68,19 @@ Definition single_extra (hs : list header) : list header :=
 
 (** explicit result of store + fetch for a single-part message: it mentions
     neither the blob table nor later stores *)
-Lemma single_result : forall (bs later : blobs) (hs : list header) (b : str),
+Lemma single_result : forall (faults : list bool) (bs later : blobs) (hs : list header) (b : str),
   hs <> [] ->
-  roundtrip hash bs (mk_msg hs (Single b)) later
+  roundtrip hash faults bs (mk_msg hs (Single b)) later
   = Some (mk_msg (map out_hdr (map hdr_store hs) ++ single_extra hs) (Single b)).
 Proof.
-  intros bs later hs b Hne.
+  intros faults bs later hs b Hne.
   unfold roundtrip, store, parse_msg, single_extra. cbn [m_body m_hdrs].
   set (ct := header_get hs s_content_type).
   set (mt := match ct with [] => S_ "text/plain" | _ => media_type_of ct end).
   set (cs := match ct with [] => S_ "us-ascii" | _ => [] end).
   set (enc := header_get hs s_cte_name).
   set (p := mk_pp None mt [] enc cs [] [] b).
-  destruct (store_parts hash bs [] [p] []) as [bs' rows'] eqn:SP.
+  destruct (store_parts hash faults bs [] [p] []) as [bs' rows'] eqn:SP.
   apply store_parts_inline in SP as (ext & new & -> & -> & Hn).
   specialize (Hn later). cbn [rowsP_aux] in Hn.
   destruct new as [|r [|r2 new]]; cbn [map] in Hn; try discriminate.
@@ -95,12 +95,12 @@ Proof.
   clearbody cs enc. destruct cs; destruct enc; reflexivity.
 Qed.
 
-Theorem single_roundtrip : forall (bs later : blobs) (hs : list header) (b : str),
+Theorem single_roundtrip : forall (faults : list bool) (bs later : blobs) (hs : list header) (b : str),
   hs <> [] ->
-  spec_ok (mk_msg hs (Single b)) (roundtrip hash bs (mk_msg hs (Single b)) later) = true.
+  spec_ok (mk_msg hs (Single b)) (roundtrip hash faults bs (mk_msg hs (Single b)) later) = true.
 Proof.
-  intros bs later hs b Hne.
-  rewrite (single_result bs later hs b Hne).
+  intros faults bs later hs b Hne.
+  rewrite (single_result faults bs later hs b Hne).
   unfold spec_ok, msg_equiv. cbn [m_body m_hdrs]. rewrite str_eqb_refl. cbn [andb].
   unfold hdrs_equiv, single_extra.
   destruct (has_ct hs) eqn:HC; cbn [negb].
@@ -121,12 +121,12 @@ Proof.
 Qed.
 
 (** independence of the history and of the time of the fetch *)
-Theorem single_independent : forall (bs1 bs2 later1 later2 : blobs) (hs : list header) (b : str),
+Theorem single_independent : forall (f1 f2 : list bool) (bs1 bs2 later1 later2 : blobs) (hs : list header) (b : str),
   hs <> [] ->
-  roundtrip hash bs1 (mk_msg hs (Single b)) later1 = roundtrip hash bs2 (mk_msg hs (Single b)) later2.
+  roundtrip hash f1 bs1 (mk_msg hs (Single b)) later1 = roundtrip hash f2 bs2 (mk_msg hs (Single b)) later2.
 Proof.
-  intros bs1 bs2 l1 l2 hs b Hne.
-  now rewrite (single_result bs1 l1 hs b Hne), (single_result bs2 l2 hs b Hne).
+  intros f1 f2 bs1 bs2 l1 l2 hs b Hne.
+  now rewrite (single_result f1 bs1 l1 hs b Hne), (single_result f2 bs2 l2 hs b Hne).
 Qed.
 
 End Single.
